@@ -104,9 +104,11 @@ Lemma lost_read_beyond_is_identity :
   = run_store_op "rel" "default" (mkOp ra_op (mkSF None None) (mkCF None None false)) (world_of ra_prefix).
 Proof. vm_compute. reflexivity. Qed.
 
-(* Known finding K14 — the one place where the Go code itself takes a failed read for an empty
-   answer: Install.availableName (and replaceRelease) return nil on ANY error of Releases.History.
-   So here [lose_read] IS the behaviour of the unchanged code: 2:superseded 3:deployed (revision 1
+(* Finding K14 (repaired in /repo: availableName and replaceRelease now return every error of
+   Releases.History but not-found; this lemma stays as the refutation of the code BEFORE the
+   repair) — the one place where the Go code itself took a failed read for an empty answer:
+   Install.availableName (and replaceRelease) returned nil on ANY error of Releases.History.
+   So here [lose_read] WAS the behaviour of the code: 2:superseded 3:deployed (revision 1
    pruned by a history limit); install with its name check (read 0) lost: revision 1 is created
    next to the history and deployed — a new revision BELOW the highest one, two deployed *)
 Definition fl_max2 : flags := mkFlags false false false false 2 false false false false 0.
